@@ -319,6 +319,12 @@ func (u *UntrustedInputChecker) OnVisitNodeLeave(n ExprNode) {
 		u.onPropAccess(n.Property)
 	case *IndexAccessNode:
 		if lit, ok := n.Index.(*StringNode); ok {
+			if lit.Value == "*" {
+				// '*' is the name of array elements in the search tree but ['*'] is not an array dereference. It
+				// accesses a property named '*' which no untrusted input has
+				u.reset()
+				break
+			}
 			// Special case like github['event']['issue']['title']
 			u.onPropAccess(strings.ToLower(lit.Value)) // Property names are case insensitive
 			break
